@@ -88,7 +88,7 @@ theorem strLt_ne {a b : Str} (h : strLt a b = true) : a ≠ b := by
 section SortSec
 variable {α : Type}
 
-theorem insertKV_perm (k : Str) (v : α) : ∀ (l : List (Str × α)), (insertKV k v l).Perm ((k, v) :: l) := by
+theorem insertKV_permZ (k : Str) (v : α) : ∀ (l : List (Str × α)), (insertKV k v l).Perm ((k, v) :: l) := by
   intro l
   induction l with
   | nil => simp [insertKV]
@@ -99,14 +99,14 @@ theorem insertKV_perm (k : Str) (v : α) : ∀ (l : List (Str × α)), (insertKV
     · exact List.Perm.refl _
     · exact (List.Perm.cons _ ih).trans (List.Perm.swap _ _ _)
 
-theorem sortKV_perm : ∀ (l : List (Str × α)), (sortKV l).Perm l := by
+theorem sortKV_permZ : ∀ (l : List (Str × α)), (sortKV l).Perm l := by
   intro l
   induction l with
   | nil => simp [sortKV]
   | cons p l ih =>
     obtain ⟨k, v⟩ := p
     simp only [sortKV]
-    exact (insertKV_perm k v _).trans (List.Perm.cons _ ih)
+    exact (insertKV_permZ k v _).trans (List.Perm.cons _ ih)
 
 /-- strictly increasing keys -/
 def SortedKV (l : List (Str × α)) : Prop := l.Pairwise (fun p q => strLt p.1 q.1 = true)
@@ -140,7 +140,7 @@ theorem insertKV_sorted (k : Str) (v : α) : ∀ (l : List (Str × α)), SortedK
       simp only [SortedKV, List.pairwise_cons]
       refine ⟨?_, ih'⟩
       intro q hq
-      have := (insertKV_perm k v l).subset hq
+      have := (insertKV_permZ k v l).subset hq
       simp only [List.mem_cons] at this
       rcases this with rfl | hq
       · exact hlt'
@@ -157,7 +157,7 @@ theorem sortKV_sorted : ∀ (l : List (Str × α)), (l.map Prod.fst).Nodup → S
     simp only [sortKV]
     refine insertKV_sorted k v _ (ih hn.2) ?_
     intro p hp e
-    exact hn.1 p ((sortKV_perm l).subset hp) e
+    exact hn.1 p ((sortKV_permZ l).subset hp) e
 
 /-- two strictly key-sorted lists that are permutations of each other are equal -/
 theorem sorted_perm_eq {l₁ l₂ : List (Str × α)} (h₁ : SortedKV l₁) (h₂ : SortedKV l₂) (hp : l₁.Perm l₂) :
@@ -170,14 +170,14 @@ theorem sortKV_perm_eq {l₁ l₂ : List (Str × α)} (hn : (l₁.map Prod.fst).
     sortKV l₁ = sortKV l₂ := by
   have hn2 : (l₂.map Prod.fst).Nodup := (hp.map Prod.fst).nodup hn
   exact sorted_perm_eq (sortKV_sorted l₁ hn) (sortKV_sorted l₂ hn2)
-    ((sortKV_perm l₁).trans (hp.trans (sortKV_perm l₂).symm))
+    ((sortKV_permZ l₁).trans (hp.trans (sortKV_permZ l₂).symm))
 
-theorem sortKV_length (l : List (Str × α)) : (sortKV l).length = l.length := (sortKV_perm l).length_eq
+theorem sortKV_length (l : List (Str × α)) : (sortKV l).length = l.length := (sortKV_permZ l).length_eq
 
-theorem mem_sortKV {l : List (Str × α)} {p : Str × α} : p ∈ sortKV l ↔ p ∈ l := (sortKV_perm l).mem_iff
+theorem mem_sortKV {l : List (Str × α)} {p : Str × α} : p ∈ sortKV l ↔ p ∈ l := (sortKV_permZ l).mem_iff
 
 theorem sortKV_keys_nodup {l : List (Str × α)} (h : (l.map Prod.fst).Nodup) : ((sortKV l).map Prod.fst).Nodup :=
-  ((sortKV_perm l).map Prod.fst).symm.nodup h
+  ((sortKV_permZ l).map Prod.fst).symm.nodup h
 
 end SortSec
 
